@@ -1,3 +1,4 @@
+import os
 """Check harness: obligations, floors, known findings, evidence, exit codes."""
 import json, os, sys, time
 
@@ -77,6 +78,12 @@ class Check:
 
     def finish(self):
         known = load_known().get(self.prop, {})
+        vb = os.environ.get("VERIF_VERBOSE")
+        if vb:
+            for r in self.rules.values():
+                if vb == "all" or r.id == vb:
+                    for s_ in r.sites:
+                        print("  [%s] %s %s @%s :: %s" % (s_["cfg"], s_["status"], s_["key"], s_["where"], s_["detail"][:160]))
         broken, viol, knownhit = [], {}, {}
         obligations = discharged = 0
         samples, rules_out = [], []
